@@ -28,6 +28,20 @@ def shapes(tier):
         J.append(job([S("once", 1, effect=dict(op="cancel", key=2)), S(k, 2), STEP, STEP]))
         J.append(job([S("once", 1, effect=dict(op="cancel", key=2)), S(k, 2), UNTIL("abs")], max_steps=3))
         J.append(job([S(k, 2), S("once", 1, effect=dict(op="cancel", key=2), origin=1), UNTIL("abs"), STEP], max_steps=3))
+    # ... and by an earlier event of the same model at the same time: events on model inputs (event API) are stopped up to
+    # the moment the model starts processing them (same origin => same sequential future => the canceller ran first)
+    for k in ("keyed", "kperiodic"):
+        for o in (0, 1, 2):
+            J.append(job([S("once", 1, origin=o, api="event", effect=dict(op="cancel", key=2)), S(k, 2, origin=o, api="event"), STEP, STEP]))
+            J.append(job([S("once", 1, origin=o, api="event", effect=dict(op="cancel", key=2)), S(k, 2, origin=o, api="event"), UNTIL("abs")], max_steps=3))
+    # three or four actions that may share one deadline and origin, the cancelled one last: the batching loop of one step
+    # must filter cancelled actions too
+    for k in ("keyed", "kperiodic"):
+        for c in (CANCEL(3), DROPAUTO(3)):
+            J.append(job([S("once", 1), S("once", 2), S(k, 3), c, STEP, STEP]))
+            J.append(job([S("once", 1), S("periodic", 2), S(k, 3), c, UNTIL("abs")], max_steps=2))
+        J.append(job([S("once", 1), S("once", 2), S("once", 3), S(k, 4), CANCEL(4), STEP]))
+        J.append(job([S("once", 1), S(k, 2), S("once", 3), S(k, 4), CANCEL(2), CANCEL(4), STEP, STEP]))
     # two keys: cancelling one leaves the other alone
     J.append(job([S("keyed", 1), S("keyed", 2, dl="rel"), CANCEL(1), STEP, STEP]))
     J.append(job([S("kperiodic", 1), S("kperiodic", 2), CANCEL(2), UNTIL("abs")], max_steps=3))
